@@ -168,6 +168,22 @@ fn idstr_case<B: Backend>(c: &IdStrCase, acc: &mut Acc) -> R {
             ensure!(t.parse::<KeyId<V<B>, Local>>().is_err(), format!("C13/{name}/id-parse/extended-id-accepted"), "the id text followed by {ext:?} was accepted as an id");
         }
         acc.class("id-string:extensions-of-a-valid-id");
+        // a multi-byte character inserted at / replacing every byte offset of the id text: the parser
+        // answers Err (slicing a str at a fixed byte offset would panic instead)
+        for ch in ["\u{e9}", "\u{20ac}", "\u{1f511}"] {
+            for off in 0..=good.len() {
+                let ins = format!("{}{ch}{}", &good[..off], &good[off..]);
+                let rep = if off < good.len() { format!("{}{ch}{}", &good[..off], &good[off + 1..]) } else { ins.clone() };
+                for t in [ins, rep] {
+                    let r = crate::util::catch(|| t.parse::<KeyId<V<B>, Local>>().is_ok());
+                    match r {
+                        Ok(false) => {}
+                        Ok(true) => return Err(Fail::new(format!("C13/{name}/id-parse/non-ascii-accepted"), format!("{t:?} was accepted as an id"))),
+                        Err(loc) => return Err(Fail::new(format!("C13/{name}/id-parse/panicked/{}", crate::util::panic_site(&loc)), format!("parsing {t:?} as an id panicked at {loc}"))),
+                    }
+                }
+            }
+        }
     }
     // arbitrary strings: accepted iff header + canonical base64 of exactly 33 bytes
     let j = c.junk.parse::<KeyId<V<B>, Local>>();
@@ -289,7 +305,7 @@ pub fn def() -> PropertyDef {
     PropertyDef {
         id: "C13",
         level: "exploration",
-        rule: "proptest cases: generated keys of every kind per back end (v1 keys also offered as PEM) - id text equals the reference digest (SHA-384[..33] / BLAKE2b-33 by a foreign library) of `kN.<lid|sid|pid>.` || canonical PASERK text; equal across clone / serialise / parse / PEM-vs-DER / sibling back end / public_key(); related lid/sid/pid differ. Id strings: bodies of 0..80 bytes and arbitrary strings are accepted iff header + strict base64url of exactly 33 bytes; a valid id followed by extra characters or '.'-separated sections is rejected; ==, Ord, Hash agree with the bytes. Ed25519 public keys in edge encodings (unreduced y, small order, x = 0 with sign bit): whatever is accepted has the id of its own serialisation, stable across parse, and the same id on the sibling. Non-trivial iff a generated (non-vector) key or an id body of length != 33 / a compared pair",
+        rule: "proptest cases: generated keys of every kind per back end (v1 keys also offered as PEM) - id text equals the reference digest (SHA-384[..33] / BLAKE2b-33 by a foreign library) of `kN.<lid|sid|pid>.` || canonical PASERK text; equal across clone / serialise / parse / PEM-vs-DER / sibling back end / public_key(); related lid/sid/pid differ. Id strings: bodies of 0..80 bytes and arbitrary strings are accepted iff header + strict base64url of exactly 33 bytes; a valid id followed by extra characters or '.'-separated sections is rejected, as is one with a multi-byte character at any byte offset; ==, Ord, Hash agree with the bytes. Ed25519 public keys in edge encodings (unreduced y, small order, x = 0 with sign bit): whatever is accepted has the id of its own serialisation, stable across parse, and the same id on the sibling. Non-trivial iff a generated (non-vector) key or an id body of length != 33 / a compared pair",
         assumptions: vec!["the canonical PASERK text of v1 keys is the DER form (as the upstream vectors require)"],
         subs,
     }
